@@ -3,7 +3,7 @@ import json, os, copy, base64, binascii, collections
 import vlib
 from vlib import Infra, log
 
-RULE = ("S->C: TLC enumerates the decision table of TonConnect_Gen (3 key sources x 17 wallet contracts x 52 single tamperings x 5 times) "
+RULE = ("S->C: TLC enumerates the decision table of TonConnect_Gen (3 key sources x 17 wallet contracts x 63 single tamperings x 5 times) "
         "into abstract cases with the verdict TonConnect!Decide requires; the harness concretises each (keys from seeds, state-inits "
         "from the wallet package, CreateSignedProof, mock executor) and runs the real Server.CheckProof under recover(); required: "
         "verdict (ok, key, error) equal to the table's, no panic. C->S: every concrete proof (table cases, random single-field "
@@ -129,14 +129,14 @@ def gen_vectors(ck):
         vecs.append(w)
     # vacuity: the table must contain every key source, contract, tampering, and all three verdict classes
     dims = {d: {v[d] for v in rows} for d in ("src", "ver", "tamper", "time")}
-    if len(dims["src"]) != 3 or len(dims["ver"]) != 17 or len(dims["tamper"]) < 52 or len(dims["time"]) != 5:
+    if len(dims["src"]) != 3 or len(dims["ver"]) != 17 or len(dims["tamper"]) < 63 or len(dims["time"]) != 5:
         raise Infra("decision table incomplete: %s" % {k: len(x) for k, x in dims.items()})
     if {v["want"]["v"] for v in rows} != {"accept", "reject", "free"}:
         raise Infra("decision table lacks a verdict class")
     return rows + bags, vecs
 
 
-FACT_FIELDS = ["plWf", "plMac", "plFresh", "addrWf", "sigB64", "sigCanon", "prFresh", "domOK", "chain", "sigChain", "siGiven", "siB64",
+FACT_FIELDS = ["plWf", "plMac", "plFresh", "addrWf", "sigB64", "sigCanon", "prFresh", "domOK", "chain", "chainJunk", "sigChain", "siGiven", "siB64",
                "siCanon", "siBoc", "siLayout", "siHash", "siCode", "siData", "siWallet", "siKeyOK", "siFull", "sigSi"]
 
 
@@ -383,14 +383,17 @@ def run(ck):
     c9 = copy.deepcopy(pev); c9["go"] = {"ok": False, "key": "", "err": "e", "panic": ""}        # valid payload logged as refused
     c10 = copy.deepcopy(pev); c10["secret"] = ("%02x" % (int(c10["secret"][:2], 16) ^ 1)) + c10["secret"][2:]                              # other secret: accepted payload is not the server's
     cp = os.path.join(ck.work, "canary.ndjson")
-    cans = [c1, c2, c3, c4, c5, c6, c7, c8, c9, c10, tev, base, pev]
+    # the account answers 0 to get_public_key, a degenerate signature, logged as accepted with the key 00..00
+    cz = copy.deepcopy(next(e for e in evs if e["case"].get("tamper") == "ck_zero_degenerate" and e["case"]["src"] == "chain"))
+    cz["go"] = {"ok": True, "key": "00" * 32, "err": "", "panic": ""}
+    cans = [c1, c2, c3, c4, c5, c6, c7, c8, c9, c10, tev, cz, base, pev]
     vlib.write_ndjson(cp, cans + [{"k": "End", "events": len(cans)}])
     st = (ck.states, ck.transitions, ck.traces_ok, ck.evaluations)
     _, crej = judge_file(ck, cp, "canary")
     ck.states, ck.transitions, ck.traces_ok, ck.evaluations = st
     got = [r["line"] for r in crej]
     ck.canary("C->S: broken signature / other key / altered state-init / expired / other domain / broken MAC / reject logged as accept / panic / "
-              "payload verdict flipped / other secret / altered issued payload accepted are rejected, the conforming originals accepted", got == list(range(1, 12)))
+              "payload verdict flipped / other secret / altered issued payload accepted / keyless acceptance under a junk chain answer are rejected, the conforming originals accepted", got == list(range(1, 13)))
     return ck.finish(rule=RULE, distinct=len(rows) + len(distinct))
 
 
